@@ -103,7 +103,7 @@ def correspond(ctx, runs, tag):
 def run(ctx):
     quick = ctx.tier == "quick"
     ctx.rule = ("host programs over handles (new, 1- and 2-qubit gates, measure in place / destructively, free, "
-                "create/recv keep of 1..3 pairs (OKs delivered one per wait poll or all at the first), sequential keep of 1..3 pairs with a measuring post routine, create/recv EPR context of 1..3 pairs whose block measures the pair, "
+                "create/recv keep of 1..3 pairs (OKs delivered one per wait poll or all at the first), sequential keep of 1..3 pairs with a post routine, create/recv EPR context of 1..3 pairs (block / routine: H+measure, free, measure in place+free, H+free, keep), Bell state per pair drawn from all four, "
                 "flush) generated op by op while running on the real SDK so that the host never exceeds the budget "
                 "(max_qubits, minus one on NV) and only addresses live handles; 19 configurations x 2 physical layouts (lowest unused physical qubit / physical qubit 0 owned by the link layer): generic 1..5, "
                 "NV 2..6 without and with the NV transpiler, generic config + NV compiler 3 and 5; plus every "
@@ -121,12 +121,13 @@ def run(ctx):
         "qubit 0 whenever that is free and the OK will be handled at once, else a never-used one); responses arrive in "
         "request order, one per wait poll or all OKs of a request at its first poll (the controller holds back an OK "
         "whose virtual ID is in use and retries at the next poll); OKs are not delivered before their request was "
-        "issued; all pairs are reported as PHI_PLUS (no correction gates run)",
+        "issued; each pair is reported in any of the four Bell states (the receiver's correction gates are uses of virtual qubits)",
         "modelled, not verified: instructions are abstracted to the events that touch the unit module (qalloc, qfree, "
         "pair delivery, gate/init/meas/mov operands); registers, arrays and branches are the object of C05/C14",
-        "EPR operations covered: create_keep/recv_keep without post_routine and not sequential, create_context/"
-        "recv_context whose block applies H and measures the pair.  create_keep/recv_keep(sequential=True) "
-        "with a post routine that measures the pair.  Not covered: other post routines, "
+        "EPR operations covered: create_keep/recv_keep without post_routine and not sequential; create_context/"
+        "recv_context and create_keep/recv_keep(sequential=True, post_routine=...) whose block / routine handles "
+        "its qubit in one of five ways: H+measure, free, measure in place+free, H+free, H and keep (keep: one pair, "
+        "or several pairs on hardware with several communication qubits).  Not covered: "
         "measure-directly and remote-state-preparation requests, min_fidelity_all_at_end retry loops, operations "
         "inside an EPR block other than on the block's qubit, handles used after they were measured or freed",
         "an SDK refusal (AssertionError in _create_ent_qubits: NV, keep of n>=2 pairs while an ID below n is in use) "
@@ -176,7 +177,7 @@ def run(ctx):
 
     # 3. generated programs, every configuration
     cfgs = qa.all_configs()
-    n_rand = 1500 if quick else 8000
+    n_rand = 1500 if quick else 6000
     for i in range(n_rand):
         cfg = cfgs[i % len(cfgs)].with_layout((i // len(cfgs)) % 2 == 1)
         ops, s = qa.gen_program(repo, cfg, rng, 12 if i % 3 == 0 else 36, want_refusal=(i % 6 == 0))
@@ -190,7 +191,7 @@ def run(ctx):
     depth = 3 if quick else 4
     ex_cfgs = [qa.Cfg(2, False, False), qa.Cfg(3, True, False, True), qa.Cfg(3, True, True)]
     if not quick:
-        ex_cfgs += [qa.Cfg(1, False, False), qa.Cfg(3, False, False), qa.Cfg(4, True, True)]
+        ex_cfgs += [qa.Cfg(1, False, False), qa.Cfg(4, True, True)]
     for cfg in ex_cfgs:
         for d in range(1, depth + 1):
             for ops in qa.enumerate_programs(cfg, d):
